@@ -83,6 +83,17 @@ func genC05(r *Rng, tier string, idx int) *Program {
 		}
 		p.Ops = append(p.Ops, Op{Kind: "sleep", Ms: p.Cfg.LevelMs[1] + 500}, Op{Kind: "ls_compact", Level: 2}, Op{Kind: "ls_l0_retention"}, Op{Kind: "ls_sync_wait"})
 	}
+	// local state lost across a restart while the replica is ahead, and the
+	// listings of the start-up checks fail part-way (15% of the fault runs)
+	if p.Variant == "faults" && r.Chance(0.15) {
+		p.Variant = "faults-meta-loss"
+		for k := r.Range(2, 5); k > 0; k-- {
+			p.Ops = append(p.Ops, appOp(genTxn(r, &p.Cfg)), Op{Kind: "ls_sync_wait"})
+		}
+		p.Ops = append(p.Ops, Op{Kind: "ls_restart", Steps: []Step{{K: "rm_meta"}}},
+			Op{Kind: "arm_storm", Mode: "list:iter_error", N: int64(r.Range(1, 3)), Ms: int64(r.Range(0, 3))},
+			Op{Kind: "ls_sync"}, Op{Kind: "ls_sync_wait"}, appOp(genTxn(r, &p.Cfg)), Op{Kind: "ls_sync_wait"})
+	}
 	// fault-free suffix: release application locks, stop faults, catch up.
 	p.Ops = append(p.Ops, appOp(Step{K: "hold_rollback"}), appOp(Step{K: "reader_end"}), Op{Kind: "faults_off"},
 		Op{Kind: "catch_up", N: 3})
@@ -90,6 +101,17 @@ func genC05(r *Rng, tier string, idx int) *Program {
 }
 
 func init() {
+	// arm_storm: from the next client call on, the next N calls of one kind get one
+	// fault (Mode "<call kind>:<fault kind>", Ms = argument, e.g. items before an
+	// iterator error)
+	extraOps["arm_storm"] = func(e *Env, op *Op) (string, bool) {
+		parts := strings.SplitN(op.Mode, ":", 2)
+		if len(parts) != 2 || op.N <= 0 {
+			return "noop", false
+		}
+		e.FS.AddStorm(Fault{Call: e.FS.Calls, Kind: parts[1], Arg: op.Ms, On: parts[0], N: int(op.N)})
+		return "ok", false
+	}
 	extraOps["faults_off"] = func(e *Env, op *Op) (string, bool) {
 		e.FS.Disabled = true
 		return "ok", false
@@ -97,6 +119,14 @@ func init() {
 	// catch_up: up to N SyncAndWait attempts after faults stopped; the first
 	// success is an ack. Failing all of them is a bounded-liveness violation.
 	extraOps["catch_up"] = func(e *Env, op *Op) (string, bool) {
+		// the clause is about what happens once faults have stopped and nothing
+		// of the application blocks litestream: make both true here, so that a
+		// minimised program that lost its faults_off / hold_rollback ops does not
+		// fail for that reason
+		e.FS.Disabled = true
+		e.FS.Outage = false
+		e.App.Do(&Step{K: "hold_rollback"})
+		e.App.Do(&Step{K: "reader_end"})
 		if e.LS == nil {
 			if err := e.startLS(); err != nil {
 				return errStr(err), false
